@@ -50,6 +50,10 @@ INCLUDED = {
     ("uN", "RBig"), ("iN", "RBig"), ("UBig", "RBig"), ("IBig", "RBig"),
     ("uN", "Relaxed"), ("iN", "Relaxed"), ("UBig", "Relaxed"), ("IBig", "Relaxed"),
     ("uN", "RRepr"), ("iN", "RRepr"), ("UBig", "RRepr"), ("IBig", "RRepr"),
+    # {false, true} = {0, 1} is contained in every number type
+    ("bool", "FBig"), ("bool", "FRepr"), ("bool", "RBig"), ("bool", "Relaxed"), ("bool", "RRepr"),
+    # RBig and Relaxed hold the same set of values (the rationals); they differ in the stored form only
+    ("RBig", "Relaxed"), ("Relaxed", "RBig"),
 }
 
 
